@@ -119,7 +119,7 @@ def rail_alternations(t, rnd):
     return jobs
 
 
-def clipped_sines(t, rnd):
+def clipped_sines(t, rnd, light=False):
     """a sine louder than full scale, clipped at the rails, at the depths where a linear prediction from samples AT the rail leaves the
     range of the sample type (24..32 bits; 32 above all): the signal enters the rail smoothly, so predictors of order 2 and more
     overshoot by up to the full scale - the residual must still be the exact difference"""
@@ -129,6 +129,10 @@ def clipped_sines(t, rnd):
             for gain in (101, 125, 200):
                 for lpc, bs in ((8, 256), (12, 576), (-1, 256), (32, 1152)):
                     if t == "quick" and (len(jobs) % 3) and bps != 32:
+                        continue
+                    # light: for the check that decodes every frame in TLA+ (C02) - shorter blocks, a third of the grid in the quick tier
+                    if light and (bs > 576 or (t == "quick" and (bps, ch, gain, lpc) not in {(32, 1, 125, 8), (32, 2, 200, 12), (32, 1, 101, -1), (32, 2, 125, 8),
+                                                                                          (32, 1, 200, 8), (31, 1, 125, 12), (24, 2, 200, 8), (28, 1, 125, 8)})):
                         continue
                     jobs.append({"fe": rnd.choice(FES), "rate": 96000, "bps": bps, "channels": ch,
                                  "opts": {"block_size": bs, "max_lpc": lpc, "mid_side": rnd.random() < 0.5, "fast_corr": rnd.random() < 0.5,
